@@ -447,9 +447,9 @@ pub fn filler(k: usize, salt: usize) -> Vec<u8> {
 /// Sample names of a generated set: deliberately not in sorted order and with punctuation that is
 /// legal in a name (no white space, no leading '-'): a comma, a dot, '=', '#', and names that look like
 /// file names (a sample may be called `iso1.fa`; a name is never a path), a first sample called `sample` (what a
-/// column title would be), a name starting with a non-ASCII letter next to the same name without it.
+/// column title would be), a name starting with a non-ASCII letter next to the same name without it, two names that differ in letter case only.
 pub fn set_sample_name(i: usize) -> String {
-    const NAMES: [&str; 13] = ["sample", "iso_B,rep2", "#2", "6925_1#7", "ΔrecA", "x.1", "recA", "A-b", "iso1.fa", "k=5", "reads_1.fastq.gz", "s10", "s2"];
+    const NAMES: [&str; 14] = ["sample", "recA", "#2", "RecA", "6925_1#7", "ΔrecA", "iso_B,rep2", "x.1", "A-b", "iso1.fa", "k=5", "reads_1.fastq.gz", "s10", "s2"];
     if i < NAMES.len() {
         NAMES[i].to_string()
     } else {
